@@ -145,7 +145,18 @@ def _asgi_scenario(job, V):
         await asyncio.get_running_loop().create_future()  # a real server blocks here
 
     async def app():
-        req = AQ.Request({"type": "http", "method": "POST", "headers": [(b"content-type", ctype)], "path": "/", "query_string": b""}, receive)
+        Req = AQ.Request
+        if prog == "subclass-body-via-plain-method":
+            class DecodingRequest(AQ.Request):
+                """what a user writes to post-process the body: a cached property that is an ordinary method returning an awaitable"""
+                @U.cached_property
+                def body(self):
+                    return self._upper()
+
+                async def _upper(self):
+                    return (await AQ.Request.body.func(self)).upper()
+            Req = DecodingRequest
+        req = Req({"type": "http", "method": "POST", "headers": [(b"content-type", ctype)], "path": "/", "query_string": b""}, receive)
         obs = await PROGRAMS[prog](req, V, log)
         return obs
 
@@ -286,9 +297,9 @@ async def p_poll_then_body(req, V, log):
 
 PROGRAMS = {"body2+stream": p_body_twice_then_stream, "concurrent-body": p_concurrent_bodies, "stream+body": p_stream_then_body,
             "json+body": p_json_then_body, "form+body+close": p_form_then_body_close, "concurrent-body-json": p_concurrent_body_json,
-            "close+body": p_close_then_body, "multipart-form+form+close": p_multipart_form_twice_close, "poll-disconnect+body": p_poll_then_body, "concurrent-body-stream": _p_two_readers("body", "stream"),
+            "close+body": p_close_then_body, "subclass-body-via-plain-method": p_body_twice_then_stream, "multipart-form+form+close": p_multipart_form_twice_close, "poll-disconnect+body": p_poll_then_body, "concurrent-body-stream": _p_two_readers("body", "stream"),
             "concurrent-stream-body": _p_two_readers("stream", "body"), "concurrent-stream-stream": _p_two_readers("stream", "stream")}
-PAYLOAD = {"multipart-form+form+close": "multipart", "poll-disconnect+body": "raw", "concurrent-body-stream": "raw", "concurrent-stream-body": "raw", "concurrent-stream-stream": "raw",
+PAYLOAD = {"subclass-body-via-plain-method": "raw", "multipart-form+form+close": "multipart", "poll-disconnect+body": "raw", "concurrent-body-stream": "raw", "concurrent-stream-body": "raw", "concurrent-stream-stream": "raw",
            "body2+stream": "raw", "concurrent-body": "raw", "stream+body": "raw", "json+body": "json", "form+body+close": "form",
            "concurrent-body-json": "json", "close+body": "raw"}
 
